@@ -25,7 +25,7 @@ RULE = (
     "pair of distinct objects; distinct = distinct (family fingerprint, i, j)"
 )
 ASSUMPTIONS = ["origins are produced by the library's constructors / merge_origins", "content equality itself is C01's subject: frozenset order and separator re-splits are not generated here"]
-MUST_SEE = ["one_origin_diff_depth_ge2", "equal_pairs_distinct_objects", "triples", "confusable_origin_pairs", "serial_families", "non_node_comparisons", "hash_rechecks", "shared_subtrees"]
+MUST_SEE = ["one_origin_diff_depth_ge2", "equal_pairs_distinct_objects", "triples", "confusable_origin_pairs", "serial_families", "non_node_comparisons", "hash_rechecks", "shared_subtrees", "shared_vs_unshared_families"]
 CONFIG = {
     "quick": {"shards": 16, "families": 500, "watchdog_s": 300},
     "thorough": {"shards": 32, "families": 500, "watchdog_s": 3000},
@@ -88,6 +88,28 @@ def run_shard(ctx):
                         q.spec.origin = o
                         fam.append((v, f"origin@{len(p.path)}"))
                         break
+        # a tree in which one node *object* sits at two positions, against content-equal trees with distinct
+        # objects there: equal everywhere, and differing in the origin of the second / first occurrence only
+        if case % 3 == 0:
+            shared_leaf = S(f"{P}Leaf", {"v": 3, "s": "sh"}, {}, ("code", 0, 1, 3))
+            inner = S(f"{P}Un", {}, {"child": shared_leaf}, ("gen", 1))
+            sh = S(f"{P}Call", {}, {"args": (inner, S(f"{P}Leaf", {"v": 1}), inner), "fn": shared_leaf, "kwargs": (shared_leaf,)})
+            fam.append((sh, "shared"))
+
+            def unshare(x):
+                n = S(x.cls, dict(x.props), {}, x.origin)
+                for k, v in x.kids.items():
+                    n.kids[k] = None if v is None else tuple(unshare(c) for c in v) if isinstance(v, tuple) else unshare(v)
+                return n
+
+            fam.append((unshare(sh), "unshared"))
+            for which in range(1, 6):
+                u = unshare(sh)
+                occ = [p for p in preorder(U, u) if p.spec.cls in (f"{P}Leaf", f"{P}Un") and p.spec.props.get("s", "sh") == "sh"]
+                tgt = occ[min(which, len(occ) - 1)] if which < 5 else occ[0]
+                tgt.spec.origin = ("xml", 2, "/other")
+                fam.append((u, f"unshared-origin@occurrence{which}"))
+            ctx.count("shared_vs_unshared_families")
         for _ in range(5):
             m = M.mutate(rng, U, rng.choice(fam)[0], KINDS)
             if m:
